@@ -2,7 +2,7 @@
    sunmd5.go's `bit` closure (off %= 128; digest[off/8] & (1 << (off%8)) != 0), as modelled literally in Kdf/SunMd5.v
    and compared with the library and libxcrypt on every run, reads bit (off mod 128) of the MD5 digest taken as ONE
    128-bit little-endian number — the bit numbering of the published algorithm — for EVERY digest and every selector. *)
-Require Import GC.Base.Bytes GC.Kdf.SunMd5 GC.Kdf.SunMd5Spec.
+Require Import GC.Base.Bytes GC.Kdf.KdfBase GC.Kdf.SunMd5 GC.Kdf.SunMd5Spec GC.Kdf.SunMd5Rounds GC.Schemes.Consts.
 
 Theorem C03_sunmd5_bit_is_digest_bit : forall d off, Forall byte_ok d ->
   bit d off = Z.b2z (Z.testbit (le_num d) (off mod 128)).
@@ -42,6 +42,22 @@ Theorem C03_sunmd5_coin_exact : forall d i, Forall byte_ok d ->
   coin d i = xorb (Z.testbit (le_num d) (Z.land (Z.shiftr (gather d 0) (bit d i)) 127))
                   (Z.testbit (le_num d) (Z.land (Z.shiftr (gather d 8) (bit d (u32 (i + 64)))) 127)).
 Proof. exact coin_exact. Qed.
+
+
+(* Key performs exactly rounds + 4096 rounds, the k-th with the counter k written in decimal: `rounds += BasicRounds` in
+   uint32 cannot wrap for an accepted round count (MaxRounds + BasicRounds = 2^32 - 1; both constants tied to /repo) *)
+Theorem C03_sunmd5_round_sequence : forall H phrase permFinal pw saltString nrounds, 0 <= nrounds <= m_sunmd5_MaxRounds ->
+  Key H phrase permFinal pw saltString nrounds m_sunmd5_BasicRounds
+  = permute (fold_left (fun acc k => round H phrase acc k)
+                       (map Z.of_nat (seq 0 (Z.to_nat (nrounds + 4096)))) (H (pw ++ saltString))) permFinal.
+Proof. exact Key_round_sequence. Qed.
+
+Theorem C03_sunmd5_round_count : forall nrounds, 0 <= nrounds ->
+  Z.of_nat (length (map Z.of_nat (seq 0 (Z.to_nat (nrounds + 4096))))) = nrounds + 4096.
+Proof. exact round_sequence_length. Qed.
+
+Example C03_sunmd5_max_rounds_fill_uint32 : m_sunmd5_MaxRounds + m_sunmd5_BasicRounds = 2 ^ 32 - 1.
+Proof. reflexivity. Qed.
 
 (* non-vacuity: a concrete 16-byte digest; selector 130 wraps to bit 2 of byte 0, selector 127 is the top bit of byte 15 *)
 Example C03_sunmd5_bit_example :
